@@ -82,6 +82,8 @@ def lib_script(sc, fault=None):
         L += ["fopen 2 src.zck r source", "create 2", "init_read 2 2", "fopen 1 tgt.zck rw target", "create 1", "init_read 1 1", "fv 1", "copy 2 1", "flags 1",
               "clear_error 1", "clear_error 2", "copy 2 1", "clear_error 1", "clear_error 2", "reset_failed 1", "copy 2 1", "flags 1", "iocounts"]
     elif k == "update":
+        if sc.get("chain"):
+            L.append("chain 1")   # the application's own callbacks hung behind the library's: they accept everything
         L += ["fopen 2 src.zck r source", "create 2", "init_read 2 2", "fopen 1 tgt.zck rwc target", "create 1",
               "update 1 1 2 B.zck %d %d %s zckverifBOUNDARY" % (sc["limit"], sc["style"], sc["frag"]), "flags 1", "iocounts"]
     return "\n".join(L) + "\n"
@@ -426,6 +428,7 @@ class C12(core.Check):
             scs.append(dict(base, name="copy-c%s" % comp, kind="copy", A=core.b64(A), T=core.b64(bytes(T))))
             scs.append(dict(base, name="copy-retry-c%s" % comp, kind="copy-retry", A=core.b64(A), T=core.b64(bytes(T))))
             scs.append(dict(base, name="update-c%s" % comp, kind="update", A=core.b64(A), T=None, limit=2, style=0, frag="n:16384"))
+            scs.append(dict(base, name="update-chained-c%s" % comp, kind="update", chain=1, A=core.b64(A), T=None, limit=2, style=0, frag="n:16384"))
             if not q:
                 scs.append(dict(base, name="update-mp-c%s" % comp, kind="update", A=core.b64(A), T=core.b64(bytes(T[: len(T) // 2])), limit=-1, style=4, frag="rand:7:5000"))
             # tools
